@@ -444,13 +444,15 @@ func repoGarbageCollect(repo Repo, conf config.Config, index types.Index, locked
 		}
 	}
 	seen := map[digest.Digest]bool{}
+	// walked tracks manifests that have been parsed, separate from seen since a manifest may also be listed as the config or a layer of an image
+	walked := map[digest.Digest]bool{}
 	// walk all manifests to note seen digests
 	for len(manifests) > 0 {
 		// work from tail to make deletes easier
 		d := manifests[len(manifests)-1]
 		manifests = manifests[:len(manifests)-1]
 		inIndex[d.Digest] = true
-		if seen[d.Digest] {
+		if walked[d.Digest] {
 			continue
 		}
 		br, err := repo.blobGet(d.Digest, locked)
@@ -458,6 +460,7 @@ func repoGarbageCollect(repo Repo, conf config.Config, index types.Index, locked
 			continue
 		}
 		seen[d.Digest] = true
+		walked[d.Digest] = true
 		// parse manifests for descriptors (manifests, config, layers)
 		if types.MediaTypeIndex(d.MediaType) {
 			man := types.Index{}
